@@ -34,7 +34,7 @@ TEXT = {
             "Held on the generated strings and square sizes; beyond ~50 bases only containment and a rounding bound are demanded."),
     "C12": ("runtime monitor: exact CGR end point per canonical k-mer column + reference counts + cross-check with the actual oligo output; byte comparison across threads and batch limits; CLI; ASan overlay (thorough)",
             "Held on the generated records for k 1..=7 and the sizes explored."),
-    "C13": ("differential runtime monitor across the FFI boundary: Python binding vs the Rust core built from the same tree (exact equality) and a pure-Python reference; batches on the rayon pool under several RAYON_NUM_THREADS; iterator use after release of the source string with heap churn; each group in a child interpreter",
+    "C13": ("differential runtime monitor across the FFI boundary: Python binding vs the Rust core built from the same tree (exact equality) and a pure-Python reference; batches on the rayon pool under several RAYON_NUM_THREADS; iterator use after release of the source string with heap churn, natively and with the interpreter under valgrind memcheck (addressability reports with a frame in the extension module); each group in a child interpreter",
             "Held on the generated strings; interpreter death is observed per child process. Miri cannot cross FFI, so lifetime soundness is only observed natively."),
     "C14": ("write-log monitor over every mm.write(pos,len,capacity) event (online bounds check before the copy, then overlap / tiling / size / NUL checks) + std UB-precondition checks of a debug-assertions build on all get_unchecked sites; ASan, Miri and filtered TSan overlays (thorough)",
             "Held on the runs explored after the row-size repair (fixed finding F6). A clean sanitizer run is not memory safety; the claim is that every logged write and every unchecked index reached by these workloads was in bounds."),
